@@ -178,12 +178,18 @@ unit("C35", "Mark-sweep size classes fit every request",
 
 unit("C36", "The large-object treadmill accounts for every object exactly once",
      rule="4000 histories (thorough 40000) following the LargeObjectSpace protocol: add (nursery / allocate-as-live), flip(full?), copy of each marked object exactly once, collect_nursery (+collect_mature when full), "
+          "[plus gcsim runs of SemiSpace, Immix, GenImmix, GenCopy, StickyImmix, MarkSweep, Compressor, MarkCompact with large objects of all ages: LargeObjectSpace::trace_object/sweep drive the real treadmill; "
+          "a reachable large object whose memory is gone or reused after a collection is a violation] "
           "ending with a full GC that marks nothing; every 25th history issues copies/adds from 2-4 threads; distinct = (GC kind, set-size classes, marked fraction class, address reuse?)",
      technique="reference-model monitor: four id-set model vs the real TreadMill; every sweep result compared as a set, emptiness predicates compared at six points per cycle, conservation over the history",
      level_text="Histories consistent with the LOS protocol against a four-set model: each sweep returns exactly the unmarked objects of the collected sets once; marked objects are never swept; added == swept overall.",
      note="Object references are synthetic addresses (the treadmill only hashes them).",
-     design_ref="2/C36", miri=True, miri_tier=1,
-     floors={"quick": {"evaluations": 40000, "gc_full": 15000, "gc_nursery": 20000, "copy_mature": 300000, "copy_nursery": 200000, "cycles_with_address_reuse": 10000, "histories_concurrent": 100}})
+     design_ref="2/C36", miri=True,
+     shards=lambda tier, seed: [dict(pkg="units", variant="A", args=["C36"])] + ([miri_shard("C36", 1)] if tier == "thorough" else []) + [
+         gc_shard(v, plan, _rng(seed, 36 + i), 12000 if tier == "quick" else 40000, flags=["weak"], mutators=_rng(seed, 360 + i).choice([1, 2]), heap=64, stress=200000)
+         for i, (v, plan) in enumerate([("A", "SemiSpace"), ("A", "Immix"), ("A", "GenImmix"), ("A", "GenCopy"), ("A", "StickyImmix"), ("A", "MarkSweep"), ("B", "Compressor"), ("C", "MarkCompact")] * (1 if tier == "quick" else 4))],
+     floors={"quick": {"evaluations": 40000, "gc_full": 15000, "gc_nursery": 20000, "copy_mature": 300000, "copy_nursery": 200000, "cycles_with_address_reuse": 10000, "histories_concurrent": 100,
+                       "gcsim_reachable_large_objects_checked_after_gc": 5000, "gcsim_full_pauses_with_large_objects": 300, "gcsim_nursery_pauses_with_large_objects": 50}})
 
 
 # =================================================================================================
